@@ -27,6 +27,8 @@ pub enum FaultKind {
     Cmp = 4,
 }
 pub const NKINDS: usize = 5;
+/// element value without an order (partial_cmp returns None)
+pub const NAN_VAL: u32 = 3;
 pub const KIND_NAMES: [&str; NKINDS] = ["drop", "clone", "closure", "iter", "cmp"];
 
 impl FaultKind {
@@ -143,7 +145,14 @@ impl Hooks {
         self.live += 1;
         self.total_created += 1;
         self.step_created.push(id);
-        Tracked { id, gen: 0, val, chk: chk(id, 0, val) }
+        Tracked {
+            id,
+            gen: 0,
+            val,
+            chk: chk(id, 0, val),
+            #[cfg(feature = "big_elem")]
+            pad: [0x5C5C_5C5C_5C5C_5C5C; 2],
+        }
     }
 
     /// Counts a user-code call of `kind`; returns true when the planned fault must fire now.
@@ -244,8 +253,13 @@ pub struct Tracked {
     pub gen: u32,
     pub val: u32,
     pub chk: u32,
+    /// configuration `big_elem`: 32-byte elements, so that "larger than two words" paths of the
+    /// crate are taken; carries no information
+    #[cfg(feature = "big_elem")]
+    pub pad: [u64; 2],
 }
 
+/// bytes of the identifying header (id, gen, val, chk)
 pub const TRACKED_SIZE: usize = 16;
 
 fn fire(kind: FaultKind) -> ! {
@@ -395,6 +409,10 @@ impl PartialOrd for Tracked {
     fn partial_cmp(&self, other: &Tracked) -> Option<Ordering> {
         touch_only(other, "partial_cmp-rhs");
         cmp_hook(self, "partial_cmp");
+        if self.val == NAN_VAL || other.val == NAN_VAL {
+            // a NaN-like value: equal to itself under `==` but not ordered (only cross_cmp plants it)
+            return None;
+        }
         Some(self.val.cmp(&other.val))
     }
 }
